@@ -601,6 +601,7 @@ section shellC02
 open Srtla Srtla.Link Srtla.SysDir
 set_option linter.unusedSectionVars false
 variable {F : Type} [Scalar F]
+variable {fa : List (Nat × Nat)}
 
 /-- The accounting invariant of the shell, literally the body of `SysInv` (`Props/SysLevel.lean`; holds of the
 initial state and along every run: `SysInv_init`, `SysInv_run`). -/
@@ -657,6 +658,7 @@ theorem C02_shell_event_kinds (s : Sys.Sys F) (e : Sys.Ev) (j : Nat) (k : KOp) (
     | .setCfg _ => False
     | .crit _ => False
     | .failNext _ => False
+    | .failAfter _ _ => False
     | .failBind _ => False
     | .stamp _ _ _ _ _ => False
     | .syncTimeout => False
@@ -715,6 +717,7 @@ theorem C02_shell_event_kinds (s : Sys.Sys F) (e : Sys.Ev) (j : Nat) (k : KOp) (
   | setCfg cfg => cases k <;> first | exact hk | (rcases hk with h | h | h <;> exact h) | (rcases hk with h | h <;> exact h)
   | crit d => cases k <;> first | exact hk | (rcases hk with h | h | h <;> exact h) | (rcases hk with h | h <;> exact h)
   | failNext c => cases k <;> first | exact hk | (rcases hk with h | h | h <;> exact h) | (rcases hk with h | h <;> exact h)
+  | failAfter c kfa => cases k <;> first | exact hk | (rcases hk with h | h | h <;> exact h) | (rcases hk with h | h <;> exact h)
   | failBind c => cases k <;> first | exact hk | (rcases hk with h | h | h <;> exact h) | (rcases hk with h | h <;> exact h)
   | stamp idx weak ld ccb cct =>
     -- the only operation a verdict stamp applies is the neutral `stamp`: no set operation
@@ -801,7 +804,7 @@ theorem C02_shell_refines (s : Sys.Sys F) (evs : List Sys.Ev) (hinv : ShellInv s
 /-! ### The periodic flush, exactly -/
 
 theorem flushGo_links (now : Nat) (ls : List (FLink F)) (fn : List Nat) :
-    (Sys.flushGo now ls fn).1 =
+    (Sys.flushGo fa now ls fn).1 =
       ls.map fun l => if l.needsBatchFlush now || !l.queue.isEmpty then (l.takeBatch now).1 else l := by
   induction ls generalizing fn with
   | nil => rfl
@@ -985,6 +988,7 @@ theorem C02_shell_refines_exact (s : Sys.Sys F) (evs : List Sys.Ev) (hinv : Shel
     | setCfg cfg => exact other (fun _ _ h => by cases h) (fun _ h => by cases h)
     | crit d => exact other (fun _ _ h => by cases h) (fun _ h => by cases h)
     | failNext c => exact other (fun _ _ h => by cases h) (fun _ h => by cases h)
+    | failAfter c kfa => exact other (fun _ _ h => by cases h) (fun _ h => by cases h)
     | failBind c => exact other (fun _ _ h => by cases h) (fun _ h => by cases h)
     | stamp idx w ld ccb cct => exact other (fun _ _ h => by cases h) (fun _ h => by cases h)
     | syncTimeout => exact other (fun _ _ h => by cases h) (fun _ h => by cases h)
